@@ -58,11 +58,16 @@ K17 = [
 
 
 def instances(tier):
-    return [("cls.%s" % s.name, dict(k=k)) for k, (s, _) in enumerate(K17)]
+    from harness.bcommon import len2_variants
+
+    return [("cls.%s%s" % (s.name, suf), dict(k=k, len2=slot)) for k, (s, _) in enumerate(K17) for suf, slot in len2_variants(s, tier)]
 
 
 def make_run(p):
+    from harness.bcommon import with_len2
+
     s, opf = K17[p["k"]]
+    s = with_len2(s, p.get("len2"))
 
     def build_op(sk_, names, files, cf):
         return opf(cf, names)
